@@ -118,13 +118,11 @@ def print_axioms(module, theorems):
     rc, out = lean_eval(src, "axioms_" + mods[-1].replace(".", "_"))
     res = {}
     cur = None
-    for line in out.splitlines():
-        m = re.match(r"'(.+)' depends on axioms: \[(.*)\]", line)
-        m2 = re.match(r"'(.+)' does not depend on any axioms", line)
-        if m:
-            res[m.group(1)] = [x.strip() for x in m.group(2).split(",")]
-        elif m2:
-            res[m2.group(1)] = []
+    # the message wraps for long names: match over the whole output
+    for m in re.finditer(r"'([^']+)'\s+depends\s+on\s+axioms:\s*\[(.*?)\]", out, re.S):
+        res[m.group(1)] = [x.strip() for x in m.group(2).replace("\n", " ").split(",") if x.strip()]
+    for m2 in re.finditer(r"'([^']+)'\s+does\s+not\s+depend\s+on\s+any\s+axioms", out, re.S):
+        res[m2.group(1)] = []
     if rc != 0 and not res:
         raise ToolError("#print axioms failed:\n" + out[-2000:])
     return res, out
@@ -194,9 +192,13 @@ def build_harness(flavor="asan", extra_flags=(), extra_sources=(), exe_name=None
             raise ToolError("harness does not compile against the current tree:\n" + "\n".join(errs)[:6000])
         objs = [o for o, _ in res]
         exe = os.path.join(hdir, exe_name or ("vm_" + flavor + hashlib.sha256(" ".join(extra_flags).encode()).hexdigest()[:6]))
-        r = run(flags + objs + ["-o", exe, "-lm"])
+        # link under a private name and rename atomically: another check may be EXECUTING this path
+        # right now (the lock covers building, not running), and must never see a half-written file
+        tmp_exe = "%s.tmp.%d" % (exe, os.getpid())
+        r = run(flags + objs + ["-o", tmp_exe, "-lm"])
         if r.returncode != 0:
             raise ToolError("harness does not link:\n" + r.stderr[-3000:])
+        os.replace(tmp_exe, exe)
         # drop stale objects
         keep = set(objs)
         for o in glob.glob(os.path.join(odir, "*.o")):
